@@ -32,7 +32,13 @@ RULE = ('program trees: random (depth <= 5, counts 1-4, 1-4 children, leaf kinds
         'inner nodes, or produced by create_program of small templates (constant, table, sequence, repetition, time '
         'reversal); x rewrite (unroll, unroll_children, encapsulate, split_one_child, _merge_single_child, cleanup x 4 '
         'action sets, flatten_and_balance depth -1..5, make_compatible and roll_constant_waveforms x (min, quantum, '
-        'sample rate) triples, to_waveform) applied at the root or at an inner path; smallest_factor_ge on n <= 400. '
+        'sample rate) triples, to_waveform) applied at the root or at an inner path; smallest_factor_ge on n <= 400; '
+        'programs with volatile counts (random + directed split-preference / measured-parent merges; tree, kind of every '
+        'count and the VolatileModificationWarning compared with Model_vol.v); programs observed with the recorded '
+        'parent_index of every node (some with two indices swapped by hand); decimal stream: leaf durations k/10, k/5, '
+        'k/3, k/7 ... (ramps whose end value differs from the start value), sample rate a multiple of the denominator, '
+        'grid points = correctly rounded doubles of k/rate, samples of to_waveform(program) before / after the rewrite '
+        'against the exact rational voltages under the absolute tolerance 2^-30 (counted as inexact_cases). '
         'Non-trivial = the rewrite returned and changed the tree, or failed with an error, on a program with >= 3 '
         'nodes; distinct = distinct canonical JSON of the case.')
 TRUSTED = [
@@ -41,10 +47,18 @@ TRUSTED = [
     'equality; constant waveforms by constant_value_dict), reference player used for the sample comparison, Gallina printers',
     'leaf waveform classes (Table/Constant/MultiChannel/Reversed sampling) are C08\'s subject; here a non-constant leaf '
     'is an opaque atom and only its duration and identity are used',
-    'sympy.ntheory.divisors (fall-back of smallest_factor_ge) is an oracle, compared with the brute-force definition',
+    'sympy.ntheory.divisors (fall-back of smallest_factor_ge) is an oracle: it enters the proofs only through the '
+    'hypothesis fallback_spec and is compared with the brute-force definition by the CSfg cases',
+    'translator translate/py2gallina.py + translate/py2gallina_c06.py (fail-closed; its output coq/C06/Gen_sfg.v is '
+    're-proved equal to the model on every run)',
+    'decimal stream: binary64 samples are compared with exact rationals under the absolute tolerance 2^-30; the '
+    'reference float path used to recognise the known finding C06-float-local-time-nested is harness code',
 ]
 ASSUMPTIONS = [
-    'repetition counts are plain integers (volatile counts are not modelled here; C15)',
+    'a volatile count is described by its current value and the fact that it is volatile; the expression it '
+    'evaluates (the tag of Model_vol.v) is not observed; make_compatible / roll_constant_waveforms on volatile programs '
+    'are checked against the specification only',
+    'smallest_factor_ge: arguments are Python ints, min_factor >= 1',
     'programs are valid: counts >= 1 (>= 0 for the purely structural rewrites), a leaf carries a waveform, an inner '
     'node carries none, all leaves define the same channels',
     'the bookkeeping invariant of utils/tree.py (parent_index = position) holds — C09; inputs that violate it '
@@ -1470,6 +1484,8 @@ def _still_fails(case, ctx, counter):
         return None
     counter['n'] += 1
     obs = run_impl(case)
+    if classify(case, obs) is not None:      # shrinking must not drift into a listed finding
+        return None
     if py_spec(case, obs) is not None:
         return obs
     try:
@@ -1507,7 +1523,7 @@ def _tree_variants(t, keep_path):
 
 def shrink(case, obs, ctx):
     import time
-    if case.get('kind') != 'rw' or 'tree' not in case.get('build', {}):
+    if case.get('kind') not in ('rw', 'dec') or 'tree' not in case.get('build', {}):
         return case, obs
     counter = {'n': 0, 't0': time.time()}
     best, best_obs = case, obs
@@ -1563,12 +1579,22 @@ MANIFEST = {
                   'flatten_and_balance) preserves the exact list of played pieces and the duration; to_waveform, '
                   'make_compatible and roll_constant_waveforms preserve the voltage function (same_play) and the duration; '
                   'postconditions of flatten_and_balance (depth, balance), make_compatible (every leaf >= minimum and a '
-                  'multiple of the quantum) and cleanup; flatten_and_balance terminates on every tree. The model is tied to '
-                  'the code by an exact correspondence check on generated programs (tree shape, counts, leaf waveforms, '
-                  'errors, rewrite sequences); sampled voltages before/after are compared on the real objects.',
-    'level_note': 'Trusted: Coq kernel, harness (describer, reference player), leaf waveform sampling (C08), the tree '
-                  'bookkeeping invariant of utils/tree.py (C09; violations are detected on the objects). Volatile '
-                  'repetition counts are not modelled: such programs are checked against the specification only.',
-    'technique': 'Coq proof over a hand-written model + correspondence check + sample comparison on the implementation',
+                  'multiple of the quantum) and cleanup; flatten_and_balance terminates on every tree. The same for programs '
+                  'with volatile repetition counts (Fixed n | Volatile n tag): unroll / split / flatten preserve the pulse at '
+                  'the current values, encapsulate / merge / cleanup under every re-evaluation of the volatile parameters; '
+                  'split preference, freezing and termination proved. The rewrites executed with the recorded parent_index '
+                  'refine the pure ones under the bookkeeping invariant and re-establish it (stale index refuted). '
+                  'smallest_factor_ge is translated from the source on every run and proved equal to the model and correct. '
+                  'The models are tied to the code by an exact correspondence check on generated programs (tree shape, '
+                  'counts, kind of count, warnings, recorded indices, leaf waveforms, errors, rewrite sequences); sampled '
+                  'voltages before/after are compared on the real objects, exactly for binary-fraction durations and under '
+                  'an absolute tolerance of 2^-30 for decimal durations.',
+    'level_note': 'Trusted: Coq kernel, harness (describer, reference player), leaf waveform sampling (C08), translator. '
+                  'The heap (parent pointers, aliasing, duration cache) is C09; here only the recorded index is modelled. '
+                  'make_compatible / roll_constant_waveforms on volatile programs: specification only. Known finding: '
+                  'nested composite waveforms with decimal durations are sampled at float-difference local times, so '
+                  'rewrites that change the nesting change samples on inner junctions (C06-float-local-time-nested).',
+    'technique': 'Coq proof over hand-written models + source translation of the integer kernel + correspondence check + '
+                 'sample comparison on the implementation',
     'design_ref': 'DESIGN.md §5 C06, §4.5, Appendix D2',
 }
